@@ -1,5 +1,6 @@
 """C11 — pickling preserves content, equality and fillability. DESIGN §3 C11."""
 import itertools
+import json
 import pickle
 
 import numpy as np
@@ -221,6 +222,101 @@ def check_built(spec, ha, hb):
     return out
 
 
+BOOL_ROUTES = ("live", "new += reload", "live += reload", "copy of (reload + live)")
+BOOL_VALUES = ("Count", "Sum")
+BOOL_CONTS = ("row True", "row False", "numpy", "numpy w=array", "numpy w=2.0")
+
+
+def check_bool_lineage(route, value, conts):
+    """A Categorize over a boolean string expression: JSON books the categories True/False under their names, so a live
+    aggregator merged with a reload carries string keys. Clone and original must still book further bool data - row by
+    row and vectorised - into the same categories (bisimulation), whatever the lineage of the bins."""
+    import numpy as np
+
+    import histogrammar as hg
+
+    args = {"route": route, "value": value, "conts": list(conts)}
+    rows = [{"s": 1.0, "y": 0.5}, {"s": -1.0, "y": 2.0}, {"s": 1.0, "y": 1.0}]
+
+    def mk():
+        return hg.Categorize("s > 0", hg.Count() if value == "Count" else hg.Sum("y"))
+
+    def build():
+        a = mk()
+        for r in rows:
+            a.fill(dict(r))
+        if route == "live":
+            return a
+        r = hg.Factory.fromJson(json.loads(json.dumps(a.toJson())))
+        if route == "new += reload":
+            g = mk()
+            g += r
+            return g
+        if route == "live += reload":
+            a += r
+            return a
+        return (r + a).copy()
+
+    def cont(h, c):
+        if c.startswith("row"):
+            h.fill({"s": 1.0 if c == "row True" else -1.0, "y": 0.25})
+            return
+        data = {"s": np.array([1.0, -1.0, 2.0]), "y": np.array([0.5, 0.25, 4.0])}
+        if c == "numpy":
+            h.fill.numpy(data)
+        elif c == "numpy w=array":
+            h.fill.numpy(data, np.array([1.0, 0.5, 2.0]))
+        else:
+            h.fill.numpy(data, 2.0)
+
+    out = []
+    try:
+        h = build()
+        d0 = h.toJson()
+        c = pickle.loads(pickle.dumps(h))
+        if not (c == h) or (c != h) or C.diff(c.toJson(), d0, tol_keys=()):
+            return [FW.violation(PROP, "bool-lineage", "clone of a Categorize over a bool expression (%s)" % route, "not-equal",
+                                 args, {})]
+        if C.diff(h.toJson(), d0, tol_keys=()):
+            return [FW.violation(PROP, "bool-lineage", "original changed by pickling (%s)" % route, "changed", args, {})]
+    except Exception as e:
+        return [core.v_exc(PROP, "bool-lineage", "building / pickling raised", e, args)]
+    for step, k in enumerate(conts):
+        ro = rc = None
+        try:
+            cont(h, k)
+        except Exception as e:
+            ro = e
+        try:
+            cont(c, k)
+        except Exception as e:
+            rc = e
+        if (ro is None) != (rc is None):
+            return [core.v_exc(PROP, "bool-lineage", "continuation raised on %s only" % ("the original" if ro else "the clone"),
+                               ro or rc, args, {"step": step})]
+        if ro is not None:
+            return out  # (both refuse: whether such a state can be filled at all is not C11's business)
+        d = C.diff(c.toJson(), h.toJson(), tol_keys=())
+        if d:
+            return [core.v_diff(PROP, "bool-lineage", "clone and original differ after the same continuation", d, c.toJson(),
+                                args, {"step": step})]
+        if not (c == h) or (c != h):
+            return [FW.violation(PROP, "bool-lineage", "clone != original after the same continuation", "not-equal", args,
+                                 {"step": step})]
+    return out
+
+
+def _bool(task):
+    acc = FW.Acc()
+    for route, value in itertools.product(BOOL_ROUTES, BOOL_VALUES):
+        for n in (1, 2):
+            for conts in itertools.product(BOOL_CONTS, repeat=n):
+                acc.add(check_bool_lineage(route, value, conts))
+                acc.n("bool_lineage_cases")
+                acc.n("clones_checked")
+    return acc.freeze_sets()
+
+
 def default_quantity_cases():
     """Aggregators built WITHOUT a quantity argument (the library's default: the datum itself), in every position where
     a node writes its own name: root, collection member, Select cut, flow slot."""
@@ -288,6 +384,8 @@ def _defaults(task):
 
 
 def _dispatch(task):
+    if task[0] == "bool-lineage":
+        return _bool(task)
     return _defaults(task) if task[0] == "defaults" else _tree(task)
 
 
@@ -381,7 +479,7 @@ def trees(tier):
 
 def run(tier, seed):
     ts = trees(tier)
-    accs = FW.pmap(_dispatch, [(t, tier) for t in ts] + [("defaults", tier)], seed)
+    accs = FW.pmap(_dispatch, [(t, tier) for t in ts] + [("defaults", tier), ("bool-lineage", tier)], seed)
     acc = FW.Acc()
     for a in accs:
         acc.merge(a)
@@ -397,7 +495,9 @@ def run(tier, seed):
                 "unchanged, survive a second generation; then every continuation of <=2 events from {3 fill events, a "
                 "weighted numpy batch, += a state} applied to clone and original must keep them identical and ==; containers "
                 "assembled by Stack.build / Fraction.build from 3x3 pairs of states (alone and inside an UntypedLabel): clone "
-                "== original, clone+clone / original+clone == original+original",
+                "== original, clone+clone / original+clone == original+original; Categorize over a boolean expression x 4 lineages "
+                "(live, new += reload, live += reload, copy of reload + live) x {Count, Sum}: every continuation of <=2 of {row True, "
+                "row False, numpy batch with no / array / scalar weight} on clone and original",
         "exhaustive": True,
         "bounds": {"trees": len(ts), "H": 2, "P": "2 (quick) / 3"},
     }
@@ -407,6 +507,8 @@ def run(tier, seed):
 
 
 def replay(driver, args):
+    if driver == "bool-lineage":
+        return check_bool_lineage(args["route"], args["value"], tuple(args["conts"]))
     spec = args["spec"]
     if driver == "defaults":
         return check_default_quantity(args["case"], [A.unshow(x) for x in args["data"]])
